@@ -141,3 +141,14 @@ def untraced():
 # the f-strings that build the messages in bromelia still execute, symbolically (plug-in P5 for .hex()).
 import logging as _logging
 _logging.disable(_logging.CRITICAL)
+
+
+def traced():
+    """inverse of untraced(): switch CrossHair's tracer back on inside an untraced stretch (no-op natively)"""
+    if MODE not in ("check", "reach"):
+        return contextlib.nullcontext()
+    try:
+        from crosshair.tracers import ResumedTracing, is_tracing
+    except Exception:
+        return contextlib.nullcontext()
+    return contextlib.nullcontext() if is_tracing() else ResumedTracing()
